@@ -290,57 +290,60 @@ func checkStepStores(c *Ctx, sc stepConsts, rState, rIdx, rPair string, only map
 
 	for _, fn := range p.RepoFuncs() {
 		for _, st := range StoresToField(fn, func(fa *ssa.FieldAddr) bool { return TermOf(fa).Fld == stateFld }) {
-			vt := TermOf(st.Val)
-			construct := FuncName(fn) + "#store(CurrentStepState="
-			if vt.Op != "const" {
-				// copy code: value is a load of the same-named field of another object
-				if vt.Op == "field" && vt.Name == "CurrentStepState" {
+			// a value chosen by a result variable is judged per definition, under the facts selecting it
+			for _, lf := range Leaves(st.Val, st.Block()) {
+				vt := TermOf(lf.V)
+				construct := FuncName(fn) + "#store(CurrentStepState="
+				if vt.Op != "const" {
+					// copy code: value is a load of the same-named field of another object
+					if vt.Op == "field" && vt.Name == "CurrentStepState" {
+						continue
+					}
+					c.Ob(rState, construct+"non-constant)", st.Pos(), false, "step state written with a non-constant value", "undecided: "+vt.String())
 					continue
 				}
-				c.Ob(rState, construct+"non-constant)", st.Pos(), false, "step state written with a non-constant value", "undecided: "+vt.String())
-				continue
+				if only != nil && !only[vt.Name] {
+					continue
+				}
+				if only != nil && only["__index_only__"] {
+					continue
+				}
+				fs := lf.Facts
+				var ok bool
+				var need string
+				switch vt.Name {
+				case sc.upgrade:
+					ok = HasFact(fs, stateIs(sc.init))
+					need = "in the case of state " + sc.init
+				case sc.routing:
+					ok = upgradeDone(fs) || (jumpGuard(fs) && HasFact(fs, replicasEqual(true)))
+					need = "doCanaryUpgrade()==(true,nil), or a jump (NextStepIndex != natural next, > 0) between steps of equal replicas"
+				case sc.analysis:
+					ok = (HasFact(fs, FTrue(MResult("trafficrouting.Manager.DoTrafficRouting", 0))) && HasFact(fs, FNil(MResult("trafficrouting.Manager.DoTrafficRouting", 1))) && HasFact(fs, stateIs(sc.routing))) ||
+						(upgradeDone(fs) && fullReplica(fs))
+					need = "DoTrafficRouting()==(true,nil) in state " + sc.routing + ", or upgrade done on a full-replica real-partition step (traffic handled in Init)"
+				case sc.paused:
+					ok = HasFact(fs, FTrue(MResult("doCanaryMetricsAnalysis", 0))) && HasFact(fs, stateIs(sc.analysis))
+					need = "doCanaryMetricsAnalysis done in state " + sc.analysis
+				case sc.ready:
+					ok = (HasFact(fs, FTrue(MResult("doCanaryPaused", 0))) && HasFact(fs, FNil(MResult("doCanaryPaused", 1))) && HasFact(fs, stateIs(sc.paused))) ||
+						(allPaths(fn, st, FTrue(MCall("rollout.isRolloutPlanChanged"))) && HasFact(fs, FCmp("==", MField("NextStepIndex"), MResult("recalculateCanaryStep", 0))))
+					need = "doCanaryPaused()==(true,nil) in state " + sc.paused + ", or plan-changed handler when the recalculated step equals NextStepIndex"
+				case sc.init:
+					ok = (HasFact(fs, stateIs(sc.ready)) && HasFact(fs, FCmp(">", MLen(MField("Steps")), MHas(MField("CurrentStepIndex"))))) ||
+						(jumpGuard(fs) && HasFact(fs, replicasEqual(false))) ||
+						allPaths(fn, st, FTrue(MCall("rollout.isRollingBackInBatches"))) ||
+						HasFact(fs, FCmp("==", MField("Reason"), MConst(rInit)))
+					need = "state " + sc.ready + " with steps left; or jump to a step with different replicas; or rollback-in-batches; or progressing reason Initializing"
+				case sc.completed:
+					ok = (HasFact(fs, stateIs(sc.ready)) && HasFact(fs, FCmp("<=", MLen(MField("Steps")), MHas(MField("CurrentStepIndex"))))) ||
+						(HasFact(fs, FCmp("==", MField("Phase"), MConst(phaseHealthy))) && HasFact(fs, FTrue(MCall("IsSubStatusEmpty"))) && HasFact(fs, FFalse(MField("InRolloutProgressing"))))
+					need = "state " + sc.ready + " with no steps left; or first deployment (phase Healthy, no sub-status, workload not in progress)"
+				default:
+					need = "a known step state"
+				}
+				c.Ob(rState, construct+vt.Name+")", st.Pos(), ok, "CurrentStepState = "+vt.Name, ifs(!ok, "gate missing: "+need)).WithFacts(fs).Req(need)
 			}
-			if only != nil && !only[vt.Name] {
-				continue
-			}
-			if only != nil && only["__index_only__"] {
-				continue
-			}
-			fs := FactsAtInstr(st)
-			var ok bool
-			var need string
-			switch vt.Name {
-			case sc.upgrade:
-				ok = HasFact(fs, stateIs(sc.init))
-				need = "in the case of state " + sc.init
-			case sc.routing:
-				ok = upgradeDone(fs) || (jumpGuard(fs) && HasFact(fs, replicasEqual(true)))
-				need = "doCanaryUpgrade()==(true,nil), or a jump (NextStepIndex != natural next, > 0) between steps of equal replicas"
-			case sc.analysis:
-				ok = (HasFact(fs, FTrue(MResult("trafficrouting.Manager.DoTrafficRouting", 0))) && HasFact(fs, FNil(MResult("trafficrouting.Manager.DoTrafficRouting", 1))) && HasFact(fs, stateIs(sc.routing))) ||
-					(upgradeDone(fs) && fullReplica(fs))
-				need = "DoTrafficRouting()==(true,nil) in state " + sc.routing + ", or upgrade done on a full-replica real-partition step (traffic handled in Init)"
-			case sc.paused:
-				ok = HasFact(fs, FTrue(MResult("doCanaryMetricsAnalysis", 0))) && HasFact(fs, stateIs(sc.analysis))
-				need = "doCanaryMetricsAnalysis done in state " + sc.analysis
-			case sc.ready:
-				ok = (HasFact(fs, FTrue(MResult("doCanaryPaused", 0))) && HasFact(fs, FNil(MResult("doCanaryPaused", 1))) && HasFact(fs, stateIs(sc.paused))) ||
-					(allPaths(fn, st, FTrue(MCall("rollout.isRolloutPlanChanged"))) && HasFact(fs, FCmp("==", MField("NextStepIndex"), MResult("recalculateCanaryStep", 0))))
-				need = "doCanaryPaused()==(true,nil) in state " + sc.paused + ", or plan-changed handler when the recalculated step equals NextStepIndex"
-			case sc.init:
-				ok = (HasFact(fs, stateIs(sc.ready)) && HasFact(fs, FCmp(">", MLen(MField("Steps")), MHas(MField("CurrentStepIndex"))))) ||
-					(jumpGuard(fs) && HasFact(fs, replicasEqual(false))) ||
-					allPaths(fn, st, FTrue(MCall("rollout.isRollingBackInBatches"))) ||
-					HasFact(fs, FCmp("==", MField("Reason"), MConst(rInit)))
-				need = "state " + sc.ready + " with steps left; or jump to a step with different replicas; or rollback-in-batches; or progressing reason Initializing"
-			case sc.completed:
-				ok = (HasFact(fs, stateIs(sc.ready)) && HasFact(fs, FCmp("<=", MLen(MField("Steps")), MHas(MField("CurrentStepIndex"))))) ||
-					(HasFact(fs, FCmp("==", MField("Phase"), MConst(phaseHealthy))) && HasFact(fs, FTrue(MCall("IsSubStatusEmpty"))) && HasFact(fs, FFalse(MField("InRolloutProgressing"))))
-				need = "state " + sc.ready + " with no steps left; or first deployment (phase Healthy, no sub-status, workload not in progress)"
-			default:
-				need = "a known step state"
-			}
-			c.Ob(rState, construct+vt.Name+")", st.Pos(), ok, "CurrentStepState = "+vt.Name, ifs(!ok, "gate missing: "+need)).WithFacts(fs).Req(need)
 		}
 		for _, st := range StoresToField(fn, func(fa *ssa.FieldAddr) bool { return TermOf(fa).Fld == idxFld }) {
 			if only != nil && !only["__index_only__"] {
